@@ -179,6 +179,22 @@ fn case(rec: &mut Rec, ctx: &Ctx, idx: u64, rng: &mut ChaCha20Rng) {
           }
         }
       }
+      // ... and the very next honest recovery on this thread is unaffected by it
+      if t >= 1 {
+        let honest: Vec<Share> = shares[..t as usize].to_vec();
+        rec.ev("honest_recovery_after_refused");
+        match recover(&honest) {
+          Ok(c) if c.get_message() == m => {}
+          other => {
+            rec.violation(
+              "recover-failed:after-refused-collection",
+              format!("t honest shares failed to recover right after a refused collection of shape {}: {:?}", what, other.map(|c| hex_short(&c.get_message())).map_err(|e| e.to_string())),
+              rep(json!({"shape": what})),
+            );
+            return;
+          }
+        }
+      }
     }
   }
   // --- any t distinct shares recover exactly M
